@@ -1,5 +1,7 @@
 import Qryn.ReadSide.StageDiscipline
+import Qryn.ReadSide.StageExec
 import Qryn.Proofs.ReadPipeH
+import Qryn.Proofs.ReadPipeHExec
 /-! Lemmas for `StageDiscipline.lean`: the invariant at the start of a request over stage codes that keep their input
     consumed; the `Undrained` invariant (counter-pattern). -/
 namespace Qryn.ReadSide.Pipe
@@ -102,5 +104,12 @@ theorem hrun_undrained {S S' : HSys} (hU : Undrained S) (h : HRun S S') : Undrai
   | step hs _ ih => exact ih (hstep_undrained hU hs)
 
 theorem undrained_not_final {S : HSys} (hU : Undrained S) : ¬ HFinal S := fun hF => hU.pending hF.1.1
+
+/-- verdict `blocked` of the stage schedule: the state is an undrained one -/
+theorem undrainedB_sound (S : HSys) (h : undrainedB S = true) : Undrained S := by
+  simp only [undrainedB, Bool.and_eq_true, Bool.not_eq_true', decide_eq_true_eq] at h
+  obtain ⟨⟨⟨⟨hn, hs⟩, hst⟩, hd⟩, hsel⟩ := h
+  refine ⟨hn, ?_, hst, hd, hsel⟩
+  intro he; rw [he] at hs; simp at hs
 
 end Qryn.ReadSide.Pipe
